@@ -3,8 +3,11 @@ package main
 import (
 	"context"
 	"fmt"
+	"net"
 	"os"
 	"os/signal"
+	"strconv"
+	"strings"
 	"syscall"
 	"time"
 
@@ -94,7 +97,8 @@ func (opts *serveOpts) run(cmd *cobra.Command, args []string) error {
 	}
 	conf := config.Config{
 		HTTP: config.ConfigHTTP{
-			Addr:     fmt.Sprintf("%s:%d", opts.addr, opts.port),
+			// an IPv6 literal is accepted with and without brackets
+			Addr:     net.JoinHostPort(strings.TrimSuffix(strings.TrimPrefix(opts.addr, "["), "]"), strconv.Itoa(opts.port)),
 			CertFile: opts.tlsCert,
 			KeyFile:  opts.tlsKey,
 		},
